@@ -21,6 +21,7 @@ import Alpaqa.Proofs.PanocLoop
 import Alpaqa.Props.C06
 import Alpaqa.Proofs.PanocLoopExample
 import Alpaqa.Proofs.PanocFuel
+import Alpaqa.Proofs.PanocDoc
 
 namespace Alpaqa.Props.C06Panoc
 open Alpaqa Alpaqa.Panoc Alpaqa.Gen Alpaqa.Props.C06
@@ -467,6 +468,104 @@ theorem noProgress_needs_consecutive (P : Problem α) (dir : Direction D α) (d0
       ((runFlags P dir d0 pr stop oot x0 gV gS iS).reverse.takeWhile (· = true)).length :=
   noProgress_needs_consecutive_of_fuel P dir d0 pr stop oot x0 y Sig errz0 gV gS iS sh
     (run_fuel_suffices P dir d0 pr stop hm n K hF oot x0 y Sig errz0 gV gS iS) hh hs
+
+/-! ### ε is the documented formula, recomputed from the data of the written-back point -/
+
+/-- **The reported `ε` equals the documented formula of the selected criterion recomputed from the
+    final iterate data `(x, x̂, γ, ∇ψ(x), ∇ψ(x̂), ŷ)`** — all ten criteria, every solve that reached the
+    main loop, every direction provider, monotone stop flag, parameters satisfying `FuelOK`, lazy and
+    eager gradient evaluation, also when the last iteration's line search was interrupted.
+
+    For the final iterate `c` (the one whose `x̂`, `ŷ` are written back):
+    * `γ > 0`;
+    * `c` carries the proximal data of its own point: `x̂ = Π_C(x − γ∇ψ(x))`, `p = x̂ − x`
+      (`Consistent`), with `∇ψ`-field `= ∇ψ(x)`;
+    * the `∇ψ(x̂)` buffer holds `∇ψ(x̂)` whenever the criterion reads it, `ŷ`-field `= ŷ(x̂)`;
+    * hence `stats.ε = docCrit` — `Props/C06`'s independent specification of the documented formulas —
+      evaluated at `(γ, x, x̂, ŷ(x̂), ∇ψ(x), ∇ψ(x̂))`, where `x̂`, `ŷ(x̂)` are the returned `x`, `y`.
+
+    Hypotheses on the problem: its prox step is the projection step (`ProxIsProj`) and its oracles are
+    consistent with one gradient map (`GradLaw`).  The loop part is the data invariant `Doc` of
+    `Proofs/PanocDoc` (it depends on `take_safe_step` clearing both `have_grad_ψx̂` flags and on
+    `eval_ψx̂` resetting the flag after every new step). -/
+theorem eps_is_documented (hnn : ∀ a : α, RealLike.isNaN a = false) (PC : Vec α → Vec α)
+    (P : Problem α) (hL : GradLaw P)
+    (hP : ProxIsProj PC (fun γ x g => ((P.prox γ x g).2.1, (P.prox γ x g).2.2)))
+    (dir : Direction D α) (d0 : D) (pr : Params α)
+    (stop : Nat → Bool) (hm : StopMono stop) (n K : Nat) (hF : FuelOK pr n K) (oot : Bool)
+    (x0 y Sig errz0 gV : Vec α) (gS iS : α) (sh : St α D)
+    (hh : finalHead P dir d0 pr stop oot x0 gV gS iS = some sh) :
+    ∃ c, (run P dir d0 pr stop oot x0 y Sig errz0 gV gS iS).final = some c ∧
+      0 < c.gamma ∧
+      Consistent PC c.gamma c.p c.x c.xhat (P.gradPsi c.x) ∧
+      c.gradPsi = P.gradPsi c.x ∧
+      (requiresGradHat pr.stopCrit = true → c.gradPsiHat = P.gradPsi c.xhat) ∧
+      c.yhat = (P.psi c.xhat).2 ∧
+      ((run P dir d0 pr stop oot x0 y Sig errz0 gV gS iS).wrote = true →
+        (run P dir d0 pr stop oot x0 y Sig errz0 gV gS iS).x = c.xhat ∧
+        (run P dir d0 pr stop oot x0 y Sig errz0 gV gS iS).y = (P.psi c.xhat).2) ∧
+      (run P dir d0 pr stop oot x0 y Sig errz0 gV gS iS).stats.eps =
+        docCrit PC pr.stopCrit c.gamma c.x c.xhat (P.psi c.xhat).2 (P.gradPsi c.x) (P.gradPsi c.xhat) := by
+  have hfuel := run_fuel_suffices P dir d0 pr stop hm n K hF oot x0 y Sig errz0 gV gS iS
+  have hrun := run_eq_exit_of_fuel P dir d0 pr stop oot x0 y Sig errz0 gV gS iS sh hfuel hh
+  -- the invariant at the last head
+  have hdoc : Doc P sh.curr ∧ 0 < sh.curr.gamma ∧
+      (requiresGradHat pr.stopCrit = true → sh.curr.haveGradHat = true) := by
+    have hi := initState_doc hL d0 pr stop x0 gV gS iS
+    have hfi := initState_finv P d0 pr stop x0 gV gS iS n K hF
+    unfold finalHead at hh
+    cases hs : initState P d0 pr stop x0 gV gS iS with
+    | inl t => rw [hs] at hh; exact absurd hh (by simp)
+    | inr s =>
+      rw [hs] at hh hi hfi
+      simp only [] at hi hfi
+      injection hh with hh
+      have hl := lastHead_doc hL dir pr stop n K hF oot (pr.maxIter + 2) s hi hfi.1
+      have hd := headStep_doc hL pr stop oot _ hl.1
+      have hf := headStep_finv P pr stop oot _ hl.2
+      rw [hh] at hd hf
+      exact ⟨hd.1, hf.gok.1, hd.2⟩
+  obtain ⟨hd, hγ, hflag⟩ := hdoc
+  rw [hrun.2]
+  have hf := exitBlock_fields P pr sh (epsOf P pr sh.curr)
+    (statusOf pr sh.k (epsOf P pr sh.curr) sh.noProgress oot (stop sh.tick)) x0 y Sig errz0
+  obtain ⟨c, hc, hx, hxh, hp, hg, hgr, hgrh, _, _, hw⟩ := exitBlock_final P pr sh (epsOf P pr sh.curr)
+    (statusOf pr sh.k (epsOf P pr sh.curr) sh.noProgress oot (stop sh.tick)) x0 y Sig errz0
+  have hyc : c.yhat = (P.psi c.xhat).2 := by
+    rcases exitBlock_final_yhat P pr sh (epsOf P pr sh.curr)
+      (statusOf pr sh.k (epsOf P pr sh.curr) sh.noProgress oot (stop sh.tick)) x0 y Sig errz0 c hc with h | h
+    · rw [h, hxh]; exact hd.yh
+    · rw [h, hxh]
+  -- the head's data, restated for `c`
+  have hgx : c.gradPsi = P.gradPsi c.x := by rw [hgr, hx]; exact hd.gx
+  have hcons : Consistent PC c.gamma c.p c.x c.xhat (P.gradPsi c.x) := by
+    have h1 := congrArg Prod.fst (hP c.gamma c.x (P.gradPsi c.x))
+    have h2 := congrArg Prod.snd (hP c.gamma c.x (P.gradPsi c.x))
+    simp only [] at h1 h2
+    have hxx : c.xhat = (P.prox c.gamma c.x (P.gradPsi c.x)).2.1 := by
+      rw [hxh, hg, hx, ← hd.gx]; exact hd.prox.2.1
+    have hpp : c.p = (P.prox c.gamma c.x (P.gradPsi c.x)).2.2 := by
+      rw [hp, hg, hx, ← hd.gx]; exact hd.prox.2.2
+    refine ⟨by rw [hxx]; exact h1, ?_⟩
+    rw [hpp, h2, ← h1, ← hxx]
+  have hgh : requiresGradHat pr.stopCrit = true → c.gradPsiHat = P.gradPsi c.xhat := fun hr => by
+    rw [hgrh, hxh]; exact hd.gh (hflag hr)
+  refine ⟨c, hc, by rw [hg]; exact hγ, hcons, hgx, hgh, hyc, fun hw' => ?_, ?_⟩
+  · have := hw hw'
+    exact ⟨this.1, by rw [this.2]; exact hyc⟩
+  · rw [hf.2.1]
+    -- ε at the head is the generated criterion of the head's fields = those of `c`
+    have heps : epsOf P pr sh.curr =
+        calcErrorStopCrit pr.stopCrit (fun γ x g => ((P.prox γ x g).2.1, (P.prox γ x g).2.2))
+          c.p c.gamma c.x c.xhat (P.psi c.xhat).2 (P.gradPsi c.x) c.gradPsiHat := by
+      rw [← hgx, hx, hxh, hp, hg, hgr, hgrh, ← hd.yh]; rfl
+    rw [heps]
+    by_cases hr : requiresGradHat pr.stopCrit = true
+    · rw [hgh hr]
+      exact calcErrorStopCrit_eq_doc hnn PC _ hP _ _ (by rw [hg]; exact ne_of_gt hγ) _ _ _ _ _ _ hcons
+    · have hr' : requiresGradHat pr.stopCrit = false := by simpa using hr
+      rw [requires_grad_hat_sound pr.stopCrit hr' _ _ _ _ _ _ _ c.gradPsiHat (P.gradPsi c.xhat)]
+      exact calcErrorStopCrit_eq_doc hnn PC _ hP _ _ (by rw [hg]; exact ne_of_gt hγ) _ _ _ _ _ _ hcons
 
 end fuel
 
